@@ -351,8 +351,13 @@ impl<W: Word> BitFieldVec<W, Vec<W>> {
     pub fn with_capacity(bit_width: usize, capacity: usize) -> Self {
         // We need at least one word to handle the case of bit width zero.
         let n_of_words = Ord::max(1, (capacity * bit_width).div_ceil(W::BITS));
+        let mut bits = Vec::with_capacity(n_of_words);
+        if bit_width == 0 {
+            // No push will ever add a word, but get/set read the first one.
+            bits.push(W::ZERO);
+        }
         Self {
-            bits: Vec::with_capacity(n_of_words),
+            bits,
             bit_width,
             mask: mask(bit_width),
             len: 0,
